@@ -107,6 +107,14 @@ Theorem C14_bindings_cover : forall e p, In e es5_props -> fun_path e = Some p -
 Proof. exact bindings_cover. Qed.
 Print Assumptions C14_bindings_cover.
 
+(* ... and every standard object that ES5 says is itself an instance of some kind (Array.prototype an
+   array, Function.prototype a function, String/Boolean/Number/Date/RegExp/Error.prototype, Math,
+   JSON, the global object) has a behavioural probe of its internal methods *)
+Theorem C14_kind_probes_cover : forall o, In o kind_required ->
+  exists pr, In pr kind_probes /\ pr_id pr = "kind:" ++ o.
+Proof. exact kind_cover. Qed.
+Print Assumptions C14_kind_probes_cover.
+
 (* the 8800-line generated table, as observed at run time, is what the generator's input
    (.gen-jscore.yaml, re-read on every run into C14/GenInput.v) says under the template
    semantics of property-value.tmpl/function.tmpl: every listed property exists with the
